@@ -6,7 +6,7 @@ from .defs import variant, field, enum, STYLES, ALIASES
 
 IDENTS = ["Red", "Green", "BlueGreen", "HTTPServer", "Ab12Cd", "V2", "Xml2Json", "A", "Ab", "Yellow", "Purple",
           "DarkBlue", "X1", "IOError", "MyVariant", "Kelvin", "Ks", "Sharp", "Foo_Bar", "snake_id", "SHOUT", "Option2",
-          "Zz", "Query", "Item9", "TLS13", "K"]
+          "Zz", "Query", "Item9", "TLS13", "K", "Err", "Error", "None", "Some", "Ok", "Output"]
 LITS = ["blue", "b", "Blue", "BLUE", "light-blue", "Light Blue", "r", "red", "RED", "gReEn", "y", "yellow", "ks", "Ks", "k",
         "K", "1a", "2", "", " x", "a b", "été", "ÉTÉ", "straße", "K", "ſ", "İx", "i̇",
         "dotlessı", "semi;colon", "quo\"te", "back\\slash", "tab\there", "new\nline", "\U0001F600", "x_y", "X-Y",
@@ -250,6 +250,11 @@ def neighbours(s, rng):
             out.append(s[:i] + la + s[i + 1:])
     for i in range(len(s) + 1):
         out.append(s[:i] + rng.choice("aZ _-1é") + s[i:])  # insert
+    # ASCII characters that are NOT letters with bit 0x20 flipped ('{' <-> '[', '@' <-> '`', '_' <-> DEL, '1' <-> DC1, ' ' <-> NUL):
+    # "ignoring ASCII case" implemented as bit twiddling must not reach them
+    for i, c in enumerate(s):
+        if ord(c) < 128 and not c.isalpha():
+            out.append(s[:i] + chr(ord(c) ^ 0x20) + s[i + 1:])
     if "ss" in s:
         out.append(s.replace("ss", "ß"))
     # non-ASCII letters case-swapped with the full Unicode mapping
